@@ -59,10 +59,11 @@ def values(delim, typ):
             'dimen': [('{2pt}', Fraction(2 * PT)), ('{1in}', Fraction(7227, 100) * PT)],
             'list': [('{a,b}', ['a', 'b']), ('{a,{b,c},d}', ['a', 'b,c', 'd'])],
             'list(;)': [('{a;b}', ['a', 'b']), ('{a,b;{c;d}}', ['a,b', 'c;d'])],
-            'dict': [('{x=1,y=2}', {'x': '1', 'y': '2'}), ('{x={a,b},z}', {'x': 'a,b', 'z': True})],
+            'dict': [('{x=1,y=2}', {'x': '1', 'y': '2'}), ('{x={a,b},z}', {'x': 'a,b', 'z': True}),
+                     ('{x=,y,w=0}', {'x': '', 'y': True, 'w': '0'})],
             'list:int': [('{2,3}', [2, 3]), ('{"A, \'17,-4}', [10, 15, -4])],
             'list(-):int': [('{2-3}', [2, 3]), ('{12-"C}', [12, 12])],
-            'dict:int': [('{x=1,y=-2}', {'x': 1, 'y': -2}), ('{k="1F}', {'k': 31})],
+            'dict:int': [('{x=1,y=-2}', {'x': 1, 'y': -2}), ('{k="1F}', {'k': 31}), ('{x=0,y=-0}', {'x': 0, 'y': 0})],
             'list:dimen': [('{1pt,2in}', [Fraction(PT), Fraction(7227, 50) * PT])],
             'list:str': [('{a,{b,c},d}', ['a', 'b,c', 'd'])],
             'Tok': [('\\foo ', '\\foo'), ('a', 'a')],
@@ -404,6 +405,13 @@ def numeric_cases(part, quick):
                                     # "ptx": the unit keyword ends at the unit, x must remain
                                     pass
                                 yield 'dimen', sg + ds + blank + tr + u + nx, sign_value(sg) * dv * f, rest
+        # keywords are recognised regardless of case (TeX's scan_keyword)
+        for ds, dv in DECIMALS[:2]:
+            for u, f in UNITS.items():
+                for spell in (u.upper(), u[0].upper() + u[1:], u[0] + u[1:].upper()):
+                    for tr in ('', 'TRUE', ' True '):
+                        for nx, rest in NEXTS[:3]:
+                            yield 'dimen', ds + tr + spell + nx, dv * f, rest
         # register multiples and internal dimensions
         for sg in SIGNS[:4]:
             for nx, rest in NEXTS:
@@ -421,6 +429,10 @@ def numeric_cases(part, quick):
         comps = [('', None), (' plus 2pt', Fraction(2 * PT)), ('plus1fil', ('fil', 1)), (' plus 2fill', ('fill', 2)),
                  (' plus 1.5filll', ('filll', Fraction(3, 2))), (' plus -1fil', ('fil', -1))]
         shr = [('', None), (' minus 3pt', Fraction(3 * PT)), (' minus 1fil', ('fil', 1)), ('minus2cm', 2 * UNITS['cm'])]
+        for ps, pv, ms, mv in ((' PLUS 2pt', Fraction(2 * PT), ' MINUS 3PT', Fraction(3 * PT)), ('Plus1FIL', ('fil', 1), ' Minus 1Fill', ('fill', 1)),
+                               (' plus 1FILLL', ('filll', 1), '', None)):
+            for nx, rest in NEXTS:
+                yield 'glue', '1pt' + ps + ms + nx, (Fraction(PT), pv, mv), rest
         for sg in ('', '-', '+-'):
             for ds, dv in DECIMALS[:3]:
                 for u in ('pt', 'in', 'sp'):
@@ -534,6 +546,36 @@ URLCASES = [   # (signature, call, expected attribute texts): the url type reads
 ]
 
 
+MIDSTAR = [   # (signature, call, expected attributes): a star modifier in the middle of a signature, blanks before the star
+    ('a * b', '{x}*{y}', {'a': 'x', '*modifier*': '*', 'b': 'y'}),
+    ('a * b', '{x} *{y}', {'a': 'x', '*modifier*': '*', 'b': 'y'}),
+    ('a * b', '{x}\n*{y}', {'a': 'x', '*modifier*': '*', 'b': 'y'}),
+    ('a * b', '{x}{y}', {'a': 'x', '*modifier*': None, 'b': 'y'}),
+    ('a * b', '{x} {y}', {'a': 'x', '*modifier*': None, 'b': 'y'}),
+    ('a * [ b ] c', '{x} * [o]{y}', {'a': 'x', '*modifier*': '*', 'b': 'o', 'c': 'y'}),
+    ('a * [ b ] c', '{x} [o]{y}', {'a': 'x', '*modifier*': None, 'b': 'o', 'c': 'y'}),
+    ('a:int * b', '{7} *{y}', {'a': 7, '*modifier*': '*', 'b': 'y'}),
+]
+
+
+def run_block_midstar(block):
+    rep = core.Report()
+    for sig, call, exp in MIDSTAR:
+        try:
+            with core.time_limit(10):
+                attrs, argsrc, text, lvl, depth, nn = run_call(sig, call)
+        except Exception as e:
+            attrs, text, lvl, depth = {'raises': '%s: %s' % (type(e).__name__, str(e)[:80])}, '', 0, 1
+        got = {k: (v[1] if isinstance(v, tuple) and v[0] == 'tok' else v) for k, v in attrs.items()}
+        rep.case(key=('midstar', sig, call), nontrivial=True, outcome=repr(sorted(got.items(), key=repr)))
+        rep.count('mid_signature_star')
+        if got != exp or text != TAIL or lvl != 0 or depth != 1:
+            rep.violation({'kind': 'midstar', 'sig': sig, 'call': call, 'exp': exp}, exp,
+                          'attributes %r, following text %r, enable level %r, depth %r' % (got, text, lvl, depth),
+                          'signature %r call %r' % (sig, call))
+    return rep.close_block()
+
+
 def run_block_url(block):
     rep = core.Report()
     for sig, call, exp in URLCASES:
@@ -561,12 +603,20 @@ def run_block_url(block):
 def run_block(block):
     if block[0] == 'url':
         return run_block_url(block)
+    if block[0] == 'midstar':
+        return run_block_midstar(block)
     if block[0] == 'sig':
         return run_block_sig(block[1:])
     return run_block_num(block[1:])
 
 
 def replay(case):
+    if case['kind'] == 'midstar':
+        r = run_block_midstar(('midstar',))
+        for v in r.violations:
+            if v['case']['sig'] == case['sig'] and v['case']['call'] == case['call']:
+                return {'verdict': 'violation', 'expected': v['expected'], 'observed': v['observed'], 'detail': v['detail']}
+        return {'verdict': 'ok', 'expected': None, 'observed': None, 'detail': ''}
     if case['kind'] == 'url':
         r = run_block_url(('url',))
         for v in r.violations:
@@ -623,6 +673,7 @@ def run(tier, seed, rep):
             blocks.append(('num', part, quick, i, NS))
     blocks.append(('num', 'decimal', quick, 0, 1))
     blocks.append(('url',))
+    blocks.append(('midstar',))
     blocks.append(('num', 'doc', quick, 0, 1))
     blocks = core.rotate(blocks, seed)
     core.merge_all(run_block, blocks, rep)
